@@ -105,7 +105,8 @@ def run(ctx):
         stored = []
         for i in b.live_blocks():
             for s in b.stmts(i):
-                if s["k"] == "assign" and any(e[0] == "f" and e[2] == "parent_drop_mode" for e in s["lhs"].get("p", [])):
+                # the guard's field holding the mode, recognised by its type (OnParentDrop), whatever its name
+                if s["k"] == "assign" and any(e[0] == "f" and len(e) > 4 and "OnParentDrop" in e[4] for e in s["lhs"].get("p", [])):
                     o = pr.rvalue(s["rv"], (), set(), i)
                     if any(x[0] == "arg" and x[1] == mp for x in o):
                         stored.append(i)
